@@ -373,6 +373,8 @@ META["explanation"] += " " + 'Both flavours of the header (x86 asm and compiler 
 
 META["explanation"] += " " + 'Also (round 13): every asm read-modify-write declares *addr as read and written ("+m", C20.W9) - the write-only form lets gcc delete the plain store that initialised the location (genuine defect, fixed in /repo 0fd784d).'
 
+META["explanation"] += " " + 'Also (round 14): the pre-C11 fence emulation around uatomic_load / uatomic_store is decided on the witnesses compiled with -std=gnu99 (C20.W10).'
+
 RULES = [
     ("C20.W7", rule_cmpd),
     ("C20.W8", rule_const),
